@@ -356,8 +356,9 @@ where
             if is_terminal {
                 for (i, property) in properties.iter().enumerate() {
                     if ebits.contains(i) {
-                        // Races other threads, but that's fine.
-                        discoveries.insert(property.name, fingerprints.clone());
+                        // Keep the first counterexample: `ebits` is not maintained once a
+                        // discovery exists, so a later path may not be a counterexample.
+                        discoveries.entry(property.name).or_insert(fingerprints.clone());
                     }
                 }
             }
